@@ -18,7 +18,7 @@ from typing import Literal
 import numpy as np
 from numba import njit, types
 
-from hiten.algorithms.dynamics.base import _propagate_dynsys
+from hiten.algorithms.dynamics.base import _DirectedSystem, _propagate_dynsys
 from hiten.algorithms.dynamics.protocols import _DynamicalSystemProtocol
 from hiten.algorithms.integrators.rk import RungeKutta
 from hiten.algorithms.types.configs import EventConfig
@@ -224,7 +224,8 @@ class _SingleHitBackend(_ReturnMapBackend):
         span = float(max(0.0, tmax - t_start))
         times = np.array([0.0, span], dtype=float)
         # diagnostics disabled by default
-        sol = integrator.integrate(dynsys, y_start, times, event_fn=event_fn, event_cfg=ev_cfg)
+        # Search along the flow in the requested direction (the alignment above does the same)
+        sol = integrator.integrate(_DirectedSystem(dynsys, forward), y_start, times, event_fn=event_fn, event_cfg=ev_cfg)
         t_hit_rel = float(sol.times[-1])
         y_hit = sol.states[-1].copy()
         t_hit = t_start + t_hit_rel
